@@ -169,6 +169,7 @@ class Executor(object):
         self.feas_quantified = True
         self.modular_loops = False
         self.opaque_nondet = False
+        self._for_covers = {}
         self._loops_done = set()
         self.stats = dict(feasibility_checks=0, paths=0)
 
@@ -1653,6 +1654,9 @@ class Executor(object):
             stop = to_z3(bounds[-1])
             invs = spec.get("invariant", [])
             s0.env["iter_index"] = start
+            # ghost names for values at loop entry (usable in the invariant; they must not be names the body assigns)
+            for n_, e_ in (spec.get("let") or {}).items():
+                s0.env[n_] = self.eval_spec(e_, s0, ctx)
             self.prove_many(s0, ctx, [(self.eval_spec(inv, s0, ctx), "inv-init", "inv-init#loop%d.%d@L%d" % (k, i, lineno), lineno) for i, inv in enumerate(invs)])
             spec["_links_init"] = {(fname, a_, v_): self.linked(s0, fname, s0.env.get(a_), s0.env.get(v_)) for (fname, a_, v_) in (spec.get("links") or [])}
             mods = _modified_names(node.body + node.orelse) | {node.target.id} | set(spec.get("havoc", []))
@@ -1685,7 +1689,15 @@ class Executor(object):
             # --- body path
             sb = s0.fork()
             sb.assume(idx < stop)
-            self.reg.cover("%s/%s/cover#loop%d-body-reachable@L%d" % (self.prop, ctx.tag, k, lineno), ctx.tag, self.global_axioms + sb.pc, lineno)
+            # a counted loop may legitimately make no trip on a given path: what is required is that the body is reachable on *some* visit
+            # (one cover per loop, emitted at the end of verify())
+            ckey = (ctx.tag, k, lineno)
+            if not self._for_covers.get(ckey):
+                chk = z3.Solver()
+                chk.set("timeout", 5000)
+                for a_ in self.global_axioms + sb.pc:
+                    chk.add(a_)
+                self._for_covers[ckey] = (chk.check() == z3.sat)
             if self.feasible(sb):
                 sb.env[node.target.id] = idx
                 for s2, oc in self.exec_block(node.body, sb, ctx):
@@ -2106,6 +2118,10 @@ class Executor(object):
             if post_hook:
                 post_hook(self, s, v, pctx, tr)
             rets.append((s, v))
+        for (tag, k_, ln), ok in sorted(self._for_covers.items()):
+            self.reg.ground("%s/%s/cover#loop%d-body-reachable@L%d" % (self.prop, tag, k_, ln), "cover", tag, bool(ok), backend="z3",
+                            detail="counted loop cut by an invariant: its body is reachable on at least one visit")
+        self._for_covers = {}
         return rets
 
 
